@@ -553,10 +553,15 @@ def rule_targets_and_groups(chk, tree):
             ds = [a.value for a in ast.walk(cpa) if isinstance(a, ast.Assign) and compact(a.targets[0]) == hv.id]
             hv = ds[-1] if ds else hv
 
-        def is_hmax(e):
+        def is_hmax(e, depth=0):
+            if depth > 6:
+                return False
             if isinstance(e, ast.Name):
                 ds2 = [a.value for a in ast.walk(cpa) if isinstance(a, ast.Assign) and compact(a.targets[0]) == e.id]
-                return bool(ds2) and all(is_hmax(d) for d in ds2)
+                # the fold written in place (a helper inlined): the accumulator of `acc = max(array.h.max(), acc)` over self.particle_arrays, seeded with a constant
+                if fold_ok(cpa) and any(isinstance(d, ast.Call) and M.call_name(d) == 'max' and e.id in [compact(x) for x in d.args] for d in ds2):
+                    return all(isinstance(d, (ast.Constant, ast.UnaryOp)) or (isinstance(d, ast.Call) and M.call_name(d) == 'max') for d in ds2)
+                return bool(ds2) and all(is_hmax(d, depth + 1) for d in ds2)
             if isinstance(e, ast.Call) and (M.call_name(e) or '').startswith('self.') and (M.call_name(e) or '').count('.') == 1:
                 try:
                     return fold_ok(M.find_func(icls, M.call_name(e)[5:]))
